@@ -89,11 +89,18 @@ FoldStep(s, acc, r) ==
                             ELSE acc
          [] OTHER        -> acc
 
-Effect(rs, s) ==
+EffectX(rs, s, needMarker) ==
   LET a == FoldLeft(LAMBDA acc, r : FoldStep(s, acc, r), FoldInit, rs)
   IN IF a.err # "" THEN Err(a.err)
-     ELSE IF ~a.match THEN Err("snapnotfound")
+     ELSE IF needMarker /\ ~a.match THEN Err("snapnotfound")
      ELSE [err |-> "", meta |-> a.meta, hs |-> a.hs, ents |-> a.ents]
+
+\* the contract of Open/ReadAll: the marker one opens at must have been saved
+Effect(rs, s) == EffectX(rs, s, TRUE)
+\* C05 itself does not ask for that error: opening at a marker that is not in the log may
+\* also answer with the effect relative to that index (the implementation does, in write
+\* mode); the properties accept both
+EffectLoose(rs, s) == EffectX(rs, s, FALSE)
 
 LastState(rs) == FoldLeft(LAMBDA h, r : IF r.k = "st" THEN [t |-> r.t, v |-> r.x, c |-> r.i] ELSE h,
                           ZeroHS, rs)
@@ -216,9 +223,11 @@ Flip(r) ==
 SelectSeg(sg, si) == LET ok == {k \in 1..Len(sg) : sg[k].idx <= si}
                      IN IF ok = {} THEN 0 ELSE CHOOSE k \in ok : \A j \in ok : j <= k
 
-ReadFrom(rs, sg, n, s) ==
+ReadFromX(rs, sg, n, s, needMarker) ==
   LET k == SelectSeg(sg, s.i)
-  IN IF k = 0 THEN Err("filenotfound") ELSE Effect(SubSeq(rs, sg[k].first, n), s)
+  IN IF k = 0 THEN Err("filenotfound") ELSE EffectX(SubSeq(rs, sg[k].first, n), s, needMarker)
+ReadFrom(rs, sg, n, s)      == ReadFromX(rs, sg, n, s, TRUE)
+ReadFromLoose(rs, sg, n, s) == ReadFromX(rs, sg, n, s, FALSE)
 
 \* the set of answers the designed reader may give for an image; RF(n) is what reading
 \* the first n records at s gives (ReadFrom, or a table of it)
@@ -253,7 +262,7 @@ Allowed(rs, im, pp, pw) ==
 
 \* the answer is an error, or what reading a legitimate prefix at s gives
 ResultAllowed(rs, sg, im, pp, pw, s, r) ==
-  r.err # "" \/ \E p \in Allowed(rs, im, pp, pw) : r = ReadFrom(rs, sg, p, s)
+  r.err # "" \/ \E p \in Allowed(rs, im, pp, pw) : r = ReadFromLoose(rs, sg, p, s)
 
 \* an image that is a clean cut at a record boundary, or whose damaged record shows a
 \* zero sector, is the repairable kind: the reopen has to come back with the records in it
@@ -296,9 +305,11 @@ SnapChoices == Markers(recs) \cup {[i |-> 1, t |-> 99]}
 EveryImageReopensWell ==
   mode \in {"append", "closed"} =>
     \A s \in SnapChoices :
-      LET T == [p \in 0..Len(recs) |-> ReadFrom(recs, segs, p, s)] IN
-      \A im \in Images : \A r \in ReadResultsBy(LAMBDA n : T[n], recs, segs, im, s) :
-         /\ r.err # "" \/ \E p \in Allowed(recs, im, pproc, ppow) : r = T[p]
+      LET T  == [p \in 0..Len(recs) |-> ReadFrom(recs, segs, p, s)]
+          TL == [p \in 0..Len(recs) |-> ReadFromLoose(recs, segs, p, s)] IN
+      \A im \in Images : \A r \in ReadResultsBy(LAMBDA n : T[n], recs, segs, im, s)
+                                  \cup ReadResultsBy(LAMBDA n : TL[n], recs, segs, im, s) :
+         /\ r.err # "" \/ \E p \in Allowed(recs, im, pproc, ppow) : r = TL[p]
          /\ MustSucceed(segs, im) => (r.err = "" \/ T[im.n].err # "")
          /\ NothingInvented(recs, s, r)
 
